@@ -112,6 +112,25 @@ extern "C" void c27_int64_boundary(void)
     checkInt64(in, n, bases[bi], true, SBuf::npos);
 }
 
+// "One digit too many": numbers with exactly one more digit than INT64_MAX has in the base, written as two symbolic
+// leading digits, zeros, and a symbolic last digit (+ an optional symbolic terminator). These are the inputs whose
+// 64-bit accumulator wraps around to a small value (e.g. hex 17000000000000000, decimal 21000000000000000000), which a
+// wrap-around style overflow test ("next < acc") does not notice.
+extern "C" void c27_int64_wrap(void)
+{
+    quiet();
+    static const int bases[3] = {8, 10, 16};
+    static const unsigned zeros[3] = {19, 17, 14};   // total digits 22 (octal), 20 (decimal), 17 (hex)
+    const unsigned bi = (unsigned)vf_concretize(vf_range(0, 2, "baseIdx"));
+    const unsigned sign = (unsigned)vf_concretize(vf_range(0, 1, "sign")); // 0 none, 1 '-'
+    unsigned char in[40]; unsigned n = 0;
+    if (sign == 1) in[n++] = '-';
+    in[n++] = vf_nondet_u8("lead"); in[n++] = vf_nondet_u8("lead");
+    for (unsigned i = 0; i < zeros[bi]; ++i) in[n++] = '0';
+    in[n++] = vf_nondet_u8("tail");
+    checkInt64(in, n, bases[bi], true, SBuf::npos);
+}
+
 // ---- httpHeaderParseOffset (strtoll based)
 static void checkOffset(const char *s)
 {
